@@ -201,10 +201,11 @@ theorem divmod128by64_spec (u : U128) (n : W) (hn : n ≠ 0#64) (hlt : u.hi.toNa
 
 /-- the estimate-and-correct branch of `divmod128by128` (divisor wider than one word: normalise, estimate the quotient
     from the top words with `divmod128by64`, shift, decrement, multiply back, one correction) returns floor quotient
-    and remainder: proved, no hypothesis -/
-theorem divmod128by128_spec (u n : U128) (hn : n.hi ≠ 0#64) (hlt : n.toNat < u.toNat) :
+    and remainder for EVERY dividend (the dispatch sends only dividends above the divisor; the kernel is also right
+    below and at the divisor, where the estimate is 0, 1 or 2): proved, no hypothesis on the dividend -/
+theorem divmod128by128_spec (u n : U128) (hn : n.hi ≠ 0#64) :
     (U128.divmod128by128 u n (U128.clz n.hi) 0).1.toNat = u.toNat / n.toNat ∧
-    (U128.divmod128by128 u n (U128.clz n.hi) 0).2.toNat = u.toNat % n.toNat := U128.div128Spec u n hn hlt
+    (U128.divmod128by128 u n (U128.clz n.hi) 0).2.toNat = u.toNat % n.toNat := U128.div128Spec u n hn
 
 /-- **`DivMod` returns floor quotient and remainder for every non-zero divisor** (dispatch, fast paths, the reduction of
     the word-divisor case to `divmod128by64` with the high/low split, and all three kernels are proved) -/
@@ -459,15 +460,12 @@ theorem imod64_spec (a : I128) (n : W) (h : I128.int64Val n ≠ 0) :
   exact ⟨r, by unfold I128.modW; rw [e], hr⟩
 /-! non-vacuity: concrete evaluations of the model on each kind of path — 7 / 2 = 3 rem 1 (64-bit fast path);
     the hypotheses of the kernel contracts are met by concrete operands (`divmod128by64`: 2^64 / 3 with high word 1 < 3;
-    `divmod128by128`: divisor 2^64 + 1 below dividend 2^65) -/
+    `divmod128by128`: divisor 2^64 + 1) -/
 example : (U128.mk 1#64 0#64).toNat ≠ 0 ∧ (U128.mk 1#64 0#64).toNat ≤ (U128.mk 1#64 0#64).toNat := by
   simp [U128.toNat]
 example : (U128.mk 0#64 7#64).divMod (U128.mk 0#64 2#64) = .ok (⟨0#64, 3#64⟩, ⟨0#64, 1#64⟩) := by
   simp [U128.divMod]
 example : (3#64 : W) ≠ 0#64 ∧ (U128.mk 1#64 0#64).hi.toNat < (3#64 : W).toNat := by decide
-example : (U128.mk 1#64 1#64).hi ≠ 0#64 ∧ (U128.mk 1#64 1#64).toNat < (U128.mk 2#64 0#64).toNat := by
-  constructor
-  · decide
-  · simp [U128.toNat]
+example : (U128.mk 1#64 1#64).hi ≠ 0#64 := by decide
 
 end C01
